@@ -370,6 +370,7 @@ func c15TimeCase(c *h.Ctx, k *c15Case, v1txt c15Txt) {
 			c.Exec(1)
 		}
 	}
+	c15ZoneIndependent(c, t, smp)
 	if k.LdapOk {
 		want := c15I64(k.Ldap)
 		// whole-second resolution (as documented) or tick resolution: both are exact readings of "Unix timestamp"
@@ -377,6 +378,55 @@ func c15TimeCase(c *h.Ctx, k *c15Case, v1txt c15Txt) {
 			c.Fail("ldap.ConvertUnixTimeStampToLDAPTimeStamp", "value", fmt.Sprintf("%s: spec %d code %d", c15TimeStr(t), want, got), smp)
 		}
 		c.Exec(1)
+	}
+}
+
+// c15ZoneIndependent: every conversion of an INSTANT gives the same result whatever Location the time.Time carries (as given,
+// UTC, fixed offsets, daylight-saving zones): the value for the UTC form is the one judged against the specification above.
+func c15ZoneIndependent(c *h.Ctx, t time.Time, smp interface{}) {
+	conv := []struct {
+		site string
+		f    func(time.Time) string
+	}{
+		{"data_structures.NewFILETIMEFromTime", func(x time.Time) string {
+			ft := data_structures.NewFILETIMEFromTime(x)
+			return fmt.Sprintf("%d", uint64(ft.DwHighDateTime)<<32|uint64(ft.DwLowDateTime))
+		}},
+		{"utils.ConvertToBinaryTime", func(x time.Time) string {
+			return fmt.Sprintf("%x", kcutils.ConvertToBinaryTime(x, c15Sources[0], key.KeyCredentialVersion{Value: c15Versions[len(c15Versions)-1]}))
+		}},
+		{"uuid_v1.UUIDv1.SetTime", func(x time.Time) string { u := &uuid_v1.UUIDv1{}; u.SetTime(x); return fmt.Sprintf("%d", u.Time) }},
+		{"uuid_v2.UUIDv2.SetTime", func(x time.Time) string { u := &uuid_v2.UUIDv2{}; u.SetTime(x); return fmt.Sprintf("%d", u.Time) }},
+		{"ldap.ConvertUnixTimeStampToLDAPTimeStamp", func(x time.Time) string { return fmt.Sprintf("%d", ldap.ConvertUnixTimeStampToLDAPTimeStamp(x)) }},
+	}
+	for _, cv := range conv {
+		var ref string
+		if p := h.Guard(func() { ref = cv.f(t.UTC()) }); p != "" {
+			continue
+		}
+		for _, z := range h.Zones(t) {
+			var got string
+			p := h.Guard(func() { got = cv.f(z) })
+			c.Exec(1)
+			if p != "" || got != ref {
+				c.Fail(cv.site, "depends-on-time-zone", fmt.Sprintf("the instant %s gives %s in location %s and %s in UTC %s", c15TimeStr(t), got, z.Location(), ref, p), smp)
+				break
+			}
+		}
+	}
+}
+
+// c15ZoneSweep: the days on which daylight-saving zones change their offset (hourly, a day around each change of 2021 and 2024)
+func c15ZoneSweep(c *h.Ctx) {
+	for _, day := range []time.Time{time.Date(2021, 3, 27, 0, 30, 0, 500, time.UTC), time.Date(2021, 10, 30, 0, 30, 0, 0, time.UTC),
+		time.Date(2021, 3, 13, 0, 0, 0, 0, time.UTC), time.Date(2021, 11, 6, 0, 0, 0, 0, time.UTC),
+		time.Date(2021, 4, 3, 0, 0, 0, 0, time.UTC), time.Date(2021, 10, 2, 0, 0, 0, 0, time.UTC),
+		time.Date(2024, 3, 30, 0, 0, 0, 0, time.UTC), time.Date(2024, 10, 26, 0, 0, 0, 0, time.UTC), time.Date(2024, 2, 28, 12, 0, 0, 0, time.UTC)} {
+		for hr := 0; hr < 72; hr++ {
+			t := day.Add(time.Duration(hr) * time.Hour)
+			c.Case(fmt.Sprintf("zone-sweep:%d", t.Unix()))
+			c15ZoneIndependent(c, t, map[string]interface{}{"utc": t.String(), "sweep": "daylight-saving change-over days"})
+		}
 	}
 }
 
@@ -449,6 +499,7 @@ func c15Cases(c *h.Ctx) error {
 		}
 		return nil
 	})
+	c15ZoneSweep(c)
 	c.Set("cases_by_kind", kinds)
 	return err
 }
